@@ -94,6 +94,30 @@ def run_property(pid, tier, jobs, verbose=False, record_baseline=False):
             if fr2.get("status") == "ok" and oi < len(obs2) and obs2[oi]["status"] != "skipped" \
                     and obs2[oi]["id"] == fn_reports[fi]["obligations"][oi]["id"]:
                 fn_reports[fi]["obligations"][oi] = obs2[oi]
+    # bounded stand-in for functions that left the supported subset (a loop / fold over a symbolic sequence without an
+    # invariant, typically after a refactor): the same contract is checked with every sequence argument fixed to 0..K
+    # elements, so the loops unroll. A refuted clause there is a genuine counter-model of the contract and is reported as a
+    # violation; clauses that hold are listed under `bounded` and the function stays *undecided* (never counted as proved).
+    bounded_unroll, bounded_info = [], []
+    K = 3 if tier == "quick" else 5
+    oor = [fr["key"] for fr in fn_reports if fr["status"] == "out-of-reach"]
+    if oor:
+        bjobs = [(k_, timeout_ms, opaque, None, n_) for k_ in oor for n_ in range(K + 1)]
+        with ctx.Pool(min(jobs, len(bjobs)), maxtasksperchild=1) as pool:
+            bres = pool.map(cli._verify_one, bjobs, chunksize=1)
+        for (k_, _, _, _, n_), fr2 in zip(bjobs, bres):
+            bad = [o for o in fr2.get("obligations", []) if o["status"] == "refuted" and pid in o.get("props", [pid])]
+            for o in bad:
+                o2 = dict(o)
+                o2["id"] = o["id"].replace("::", f"::bounded_unrolling_len{n_}.", 1) if "::" in o["id"] else f"bounded_unrolling_len{n_}." + o["id"]
+                o2["kind"] = "bounded"
+                o2["backend"] = o["backend"] + f"+unrolled(len={n_})"
+                o2["detail"] = (f"function is outside the supported subset as written; with every sequence argument fixed to {n_} "
+                                f"element(s) the loops unroll and this clause of its contract is refuted. " + o.get("detail", ""))
+                bounded_unroll.append(o2)
+            bounded_info.append({"what": f"{k_}: contract checked with sequence arguments of length {n_} (loops unrolled)",
+                            "bound": f"length = {n_}", "hit": bool(bad), "output": fr2.get("status", "") + " " + fr2.get("detail", "")[:200],
+                            "secs": fr2.get("secs", 0)})
     # property-specific extra obligations (lemmas, AST-level frame scans, Lean lemmas ...)
     extra = []
     if pmod is not None and hasattr(pmod, "extra_obligations"):
@@ -160,6 +184,8 @@ def run_property(pid, tier, jobs, verbose=False, record_baseline=False):
             bounded.append({"what": o["id"], "bound": o.get("bound", ""), "hit": False, "output": o.get("detail", ""), "secs": o.get("secs", 0)})
     extra = [o for o in extra if not (o.get("kind") == "bounded" and o["status"] == "held")]
     obs.extend(extra)
+    obs.extend(bounded_unroll)
+    bounded.extend(bounded_info)
     if extra_hit is not None:
         obs.append(extra_hit)
     for g_ in guards:
